@@ -432,6 +432,7 @@ func (e *Explorer) RunPath(fn *ssa.Function, harness string, prefix []int64) (re
 	e.funcsSeen = map[*ssa.Function]bool{}
 	e.stubsUsed = map[string]bool{}
 	e.solver.log = e.solver.log[:0]
+	e.solver.tainted = false
 	e.em = &emitter{defined: map[int]bool{}, ufs: map[string]bool{}, out: e.solver.send}
 	e.solver.send("(push 1)")
 	e.startInstrs = InstrCount
